@@ -176,8 +176,18 @@ def c12(res, tier, seed):
         at_conds.append({"t": "sat", "s": "$_a", "x": {"t": "bin", "op": "-", "l": {"t": "filesize"}, "r": I(k)}})
         at_conds.append({"t": "and", "l": {"t": "sat", "s": "$_a", "x": I(k)}, "r": {"t": "sat", "s": "$_a", "x": I(k + 5)}})
         at_conds.append({"t": "sin", "s": "$_a", "lo": I(k), "hi": {"t": "bin", "op": "-", "l": {"t": "filesize"}, "r": I(k)}})
+    # a constant offset and a run-time offset for the same string, in both orders (the fixed-offset shortcut is taken when the first
+    # `at` is seen and must be dropped again when a different or unknown offset follows)
+    mixed = []
+    for k1 in range(0, 9, 2):
+        for k in range(0, 6):
+            nonc = r.choice([{"t": "bin", "op": "-", "l": {"t": "filesize"}, "r": I(k)}, {"t": "bin", "op": "+", "l": {"t": "ext", "name": "ext_j"}, "r": I(k + 5)}])
+            mixed.append({"t": "or", "l": {"t": "sat", "s": "$_a", "x": I(k1)}, "r": {"t": "sat", "s": "$_a", "x": nonc}})
+            mixed.append({"t": "or", "l": {"t": "sat", "s": "$_a", "x": nonc}, "r": {"t": "sat", "s": "$_a", "x": I(k1)}})
     if tier == "quick":
-        at_conds = r.sample(at_conds, 40)
+        at_conds = r.sample(at_conds, 40) + r.sample(mixed, 24)
+    else:
+        at_conds += mixed
     for a in at_conds:
         txt = cg.show(a)[0]
         groups.append({"src": cond.rule_text(txt), "bufs": occ_bufs, "pre": cond.EXT_DEFS})
